@@ -39,6 +39,7 @@ from .spec import (
     SetView,
 )
 from .values import (
+    BYTES,
     BOOL,
     FRAG,
     GAP,
@@ -192,6 +193,8 @@ class Engine:
             return lv.len > 0
         if isinstance(ty, TTuple):
             return z3.BoolVal(len(v.z) > 0)
+        if ty == BYTES:
+            return v.z[2].z > 0
         if ty in (STRSEQ, STRLIST):
             return z3.Length(v.z) > 0
         if isinstance(ty, TOpt):
@@ -284,7 +287,13 @@ class Engine:
         if isinstance(c, float):
             return [(st, Val(REAL, z3.RealVal(repr(c))))]
         if isinstance(c, bytes):
-            return [(st, Val(TConst(), ("bytes", c)))]
+            # bytes values are abstract: (kind, first, n); kind 1 = a run of one filler character,
+            # kind 3 = line terminator (see specs/fasta.py)
+            if c == b"\n":
+                return [(st, bytes_val(3, 0, 1))]
+            if len(set(c)) <= 1:
+                return [(st, bytes_val(1, 0, len(c)))]
+            raise OutOfSubset(f"bytes constant {c!r}")
         raise OutOfSubset(f"constant {c!r}")
 
     def ev_Name(self, e, st, exc):
@@ -390,19 +399,7 @@ class Engine:
 
     def divmod_w(self, st, a, b):
         """witness encoding of floor division (q, r) with a == b*q + r"""
-        memo = st.ghost.setdefault("divmod", {})
-        key = (a.get_id(), b.get_id())
-        if key in memo:
-            return memo[key]
-        q = smt.fresh("q", smt.Int)
-        r = smt.fresh("r", smt.Int)
-        st.assume(a == b * q + r)
-        st.assume(z3.Implies(b > 0, z3.And(0 <= r, r < b)))
-        st.assume(z3.Implies(b < 0, z3.And(b < r, r <= 0)))
-        memo = dict(memo)
-        memo[key] = (q, r)
-        st.ghost["divmod"] = memo
-        return q, r
+        return smt.define_divmod(a, b)
 
     def ev_BinOp(self, e, st, exc):
         out = []
@@ -439,6 +436,12 @@ class Engine:
                 return Val(REAL, az / bz)
         if a.ty == STR and b.ty == STR and isinstance(op, ast.Add):
             return mk_str(z3.Concat(a.z, b.z))
+        if a.ty == BYTES and b.ty == INT and isinstance(op, ast.Mult):
+            kind, first, n = a.z
+            kz = z3.simplify(kind.z)
+            if not (z3.is_int_value(kz) and kz.as_long() == 1):
+                raise OutOfSubset("repetition of bytes other than a filler character")
+            return Val(BYTES, (kind, first, mk_int(z3.If(b.z < 0, 0, n.z * b.z))))
         raise OutOfSubset(f"binary op {type(op).__name__} on {a.ty},{b.ty} at L{line}")
 
     def ev_BoolOp(self, e, st, exc):
@@ -621,7 +624,7 @@ class Engine:
             if owner is None:
                 raise OutOfSubset(f"attribute {ty.cls}.{attr} at L{line}")
             _, m, fty = field_map(s, ty.cls, attr)
-            v = unpack(fty, m[recv.z])
+            v = unpack(fty, z3.simplify(m[recv.z]))
             self.note_list(s, v)
             return [(s, v)]
         if isinstance(ty, TConst):
@@ -971,8 +974,12 @@ class Engine:
             if k not in names:
                 raise OutOfSubset(f"unknown keyword {k} for {con.short}")
             args[k] = v
+        cdef = getattr(con, "defaults", None) or {}
         for n in names:
             if n not in args:
+                if n in cdef:
+                    args[n] = NONE_VAL if cdef[n] is None else self.py_const(cdef[n])
+                    continue
                 if n not in defaults:
                     raise OutOfSubset(f"missing argument {n} for {con.short} at L{line}")
                 args[n] = self.default_value(defaults[n])
@@ -981,6 +988,8 @@ class Engine:
     def default_value(self, node):
         if isinstance(node, ast.Constant):
             return self.ev_Constant(node, None, None)[0][1]
+        if isinstance(node, ast.Name) and node.id == "None":
+            return NONE_VAL
         if isinstance(node, ast.Tuple) and not node.elts:
             return Val(STRSEQ, z3.Empty(smt.StrSeq))
         if isinstance(node, ast.UnaryOp) and isinstance(node.op, ast.USub) and isinstance(node.operand, ast.Constant):
@@ -1270,6 +1279,8 @@ class Engine:
                 return [(s, mk_int(len(x.z)))]
             if x.ty in (STR, STRSEQ):
                 return [(s, mk_int(z3.Length(x.z)))]
+            if x.ty == BYTES:
+                return [(s, x.z[2])]
             raise OutOfSubset(f"len of {x.ty}")
         if name in ("min", "max"):
             if len(pos) != 2 or any(p.ty != INT for p in pos):
@@ -1906,7 +1917,11 @@ class Engine:
         for label, f in self.call_inv(spec, v, e_ns):
             s.assume(f)
         if spec.hints:
-            for f in spec.hints(v):
+            # lemma instances (cut rule): each hint is proved on its own - from the definitional facts only,
+            # no path condition - and then used
+            for hi, f in enumerate(spec.hints(v)):
+                if not self.discovery:
+                    self.obligations.append(Obligation(self.fn.short, f"hint:loop{ordinal}.hint[{hi}]@L{line}", "hint", [], f, line, self.axioms))
                 s.assume(f)
         # frame of the heap maps: proved as part of the invariant (entry trivially; back edge below)
         frame_fs = self.frame_formulas(s, entry, mod_maps, frame_allow)
@@ -2117,6 +2132,10 @@ class Engine:
         return outs + exc
 
     gen_stack = []
+
+
+def bytes_val(kind, first, n):
+    return Val(BYTES, (mk_int(kind), mk_int(first), mk_int(n)))
 
 
 def _as_load(t):
